@@ -47,6 +47,15 @@ struct Case {
     jitter: bool,
     /// outcome of call 1, 2, …; calls beyond the script get `Retryable(0)`
     script: Vec<Out>,
+    /// virtual milliseconds every attempt takes before it returns its outcome (a request that
+    /// runs into a timeout, a slow answer): the wait between attempts is counted from the END of
+    /// the failed attempt
+    #[serde(default)]
+    busy_ms: u64,
+    /// the five environment texts as they are, instead of the rendering of the fields above
+    /// (arbitrary text in one variable)
+    #[serde(default)]
+    env_raw: Option<[String; 5]>,
 }
 
 const INITIALS: [Duration; 4] = [Duration::ZERO, Duration::from_millis(1), Duration::from_millis(100), Duration::from_secs(10)];
@@ -185,7 +194,7 @@ fn run_case(c: &Case, known: &Known, via_env: bool) -> Verdict {
         return Verdict::pass(); // never generated
     };
     let policy = if via_env {
-        let Some(vals) = env_text(c) else { return Verdict::pass() };
+        let Some(vals) = c.env_raw.clone().or_else(|| env_text(c)) else { return Verdict::pass() };
         match policy_from_env(&vals) {
             Ok(Some(p)) => p,
             Ok(None) => return Verdict::pass().class("from_env-refused-the-values"),
@@ -207,6 +216,7 @@ fn run_case(c: &Case, known: &Known, via_env: bool) -> Verdict {
     let m = policy.multiplier;
     let jit = if policy.jitter { 1.3 } else { 1.0 };
     let env_differs = via_env
+        && c.env_raw.is_none()
         && (policy.max_attempts != c.max_attempts
             || policy.initial_backoff != c.initial_backoff
             || policy.max_backoff != c.max_backoff
@@ -226,6 +236,8 @@ fn run_case(c: &Case, known: &Known, via_env: bool) -> Verdict {
     };
 
     let log: RefCell<Vec<tokio::time::Instant>> = RefCell::new(Vec::new());
+    let ends: RefCell<Vec<tokio::time::Instant>> = RefCell::new(Vec::new());
+    let busy = Duration::from_millis(c.busy_ms.min(3_600_000));
     // "no constructible policy makes the call panic": a panic is a failure whose key names its origin
     let ran = vh_engine::util::catch_panic(|| {
         let rt = tokio::runtime::Builder::new_current_thread().enable_time().start_paused(true).build().expect("runtime");
@@ -237,10 +249,17 @@ fn run_case(c: &Case, known: &Known, via_env: bool) -> Verdict {
                         l.push(tokio::time::Instant::now());
                         l.len()
                     };
-                    std::future::ready(match outcome_of(i) {
-                        Out::Ok => Ok(i),
-                        o => Err(mk_err(o, i)),
-                    })
+                    let ends = &ends;
+                    async move {
+                        if !busy.is_zero() {
+                            tokio::time::sleep(busy).await;
+                        }
+                        ends.borrow_mut().push(tokio::time::Instant::now());
+                        match outcome_of(i) {
+                            Out::Ok => Ok(i),
+                            o => Err(mk_err(o, i)),
+                        }
+                    }
                 })
                 .await;
             (r, tokio::time::Instant::now())
@@ -306,7 +325,9 @@ fn run_case(c: &Case, known: &Known, via_env: bool) -> Verdict {
 
     // 5. delays
     let mut v = Verdict::pass();
-    let gaps: Vec<f64> = times.windows(2).map(|w| (w[1] - w[0]).as_secs_f64()).collect();
+    // from the end of attempt k to the start of attempt k+1
+    let ended = ends.borrow().clone();
+    let gaps: Vec<f64> = (0..times.len().saturating_sub(1)).map(|k| (times[k + 1] - ended.get(k).copied().unwrap_or(times[k])).as_secs_f64()).collect();
     let any_hint = outs.iter().any(|o| matches!(o, Out::Hinted(_)));
     let exact = !policy.jitter && m.is_finite() && m >= 1.0 && !any_hint;
     let mut sum_hi = 0.0f64;
@@ -369,7 +390,8 @@ fn run_case(c: &Case, known: &Known, via_env: bool) -> Verdict {
     }
     // 6. no waiting outside the delays above ("wait for ever")
     let total = (end - times[0]).as_secs_f64();
-    if !clock_range_exceeded && total > sum_hi + TICK {
+    let busy_total = busy.as_secs_f64() * n as f64 + TICK * n as f64;
+    if !clock_range_exceeded && total > sum_hi + busy_total + TICK {
         return Verdict::fail(K_TOTAL, format!("call took {total}s of virtual time, the delays are bounded by {sum_hi}s; {}", ctx()));
     }
 
@@ -467,15 +489,15 @@ fn sampled_strategy() -> BoxedStrategy<Case> {
         proptest::sample::select(maxes),
         proptest::sample::select(mults),
         any::<bool>(),
-        proptest::collection::vec(sym_strategy(), 0..=7),
+        (proptest::collection::vec(sym_strategy(), 0..=7), prop_oneof![6 => Just(0u64), 1 => Just(1u64), 1 => Just(300u64), 1 => Just(15_000u64)]),
     )
-        .prop_map(|(a, i, mx, mu, j, mut script)| {
+        .prop_map(|(a, i, mx, mu, j, (mut script, busy_ms))| {
             script.truncate(a as usize + 2);
             // keep the documented delays min(initial*m^k, max) out of the range the virtual clock cannot walk through
             let m: f64 = mu.parse().unwrap_or(0.0);
             let d1 = (i.as_secs_f64() * m).min(mx.as_secs_f64());
             let mu = if m > 0.0 && m < 1.0 && d1 >= SLOW_SLEEP { "0" } else { mu };
-            Case { max_attempts: a, initial_backoff: i, max_backoff: mx, multiplier: mu.to_string(), jitter: j, script }
+            Case { max_attempts: a, initial_backoff: i, max_backoff: mx, multiplier: mu.to_string(), jitter: j, script, busy_ms, env_raw: None }
         })
         .boxed()
 }
@@ -527,6 +549,8 @@ fn main() {
                         multiplier: mu.to_string(),
                         jitter: j,
                         script,
+                        busy_ms: if pi % 5 == 4 { 250 } else { 0 },
+                        env_raw: None,
                     })
                 }))
             },
@@ -548,7 +572,7 @@ fn main() {
     ck.run(
         Section::enumerate(
             "cdn-429-retry-after",
-            "a loopback HTTP server answers CdnClient::download with 1..=3 responses `429` carrying Retry-After absent / `0` / `1` / `1.5` / `-1` / `soon` / an HTTP-date / empty, then `200`; the arrival times of the requests are logged: an integer header is the hint (waited at least that long), every other form is documented as ignored, i.e. the default policy's 100 ms, 200 ms, 400 ms (never less)",
+            "a loopback HTTP server answers CdnClient::download with 1..=3 responses `429` carrying Retry-After absent / `0` / `1` / `1.5` / `-1` / `soon` / an HTTP-date / empty, then `200`; the arrival times of the requests are logged: an integer header is the hint (waited at least that long), every other form is documented as ignored, i.e. the default policy's 100 ms, 200 ms, 400 ms (never less); plus 403 / 404 / 410 (final: one request) and 500 / 503 (ordinary backoff) carrying a Retry-After header",
             || Box::new(http429::all_cases().into_iter()),
             http429::check,
         )
@@ -572,7 +596,7 @@ fn main() {
                         vec![Out::Ok],
                     ]
                     .into_iter()
-                    .map(move |script| Case { max_attempts: a, initial_backoff: i, max_backoff: mx, multiplier: mu.to_string(), jitter: j, script })
+                    .map(move |script| Case { max_attempts: a, initial_backoff: i, max_backoff: mx, multiplier: mu.to_string(), jitter: j, script, busy_ms: 0, env_raw: None })
                 }))
             },
             move |c: &Case| run_case(c, &known, true),
@@ -581,6 +605,35 @@ fn main() {
         .panic_prefix_("execute"),
     );
 
+    // 4. arbitrary text in one environment variable at a time
+    let known = ck.known().clone();
+    ck.run(
+        Section::enumerate(
+            "from-env-texts",
+            "each of the five CASCETTE_* variables in turn set to one of 22 texts (empty, blanks, words, negative, fractional, exponent, inf, NaN, 2^64-1, 2^64, 2^128, hex, signed, trailing blank, non-ASCII digits, true/false/1/0/yes) with the other four at plain values; from_env must not panic, and a policy it returns is run through three outcome sequences".to_string(),
+            move || {
+                const TEXTS: [&str; 22] = [
+                    "", " ", "abc", "-1", "1.5", "1e3", "1e20", "1e400", "inf", "-inf", "NaN", "18446744073709551615", "18446744073709551616", "340282366920938463463374607431768211456", "0x10", "+5", "5 ",
+                    "\u{663}", "true", "false", "1", "yes",
+                ];
+                let plain = ["2", "10", "1", "2", "false"];
+                let mut v = Vec::new();
+                for var in 0..5 {
+                    for t in TEXTS {
+                        let mut vals: [String; 5] = plain.map(str::to_string);
+                        vals[var] = t.to_string();
+                        for script in [vec![], vec![Out::Retryable(0), Out::Limited, Out::Ok], vec![Out::Hinted(1_000), Out::Fatal(0)]] {
+                            v.push(Case { max_attempts: 2, initial_backoff: Duration::from_millis(10), max_backoff: Duration::from_secs(1), multiplier: "2".into(), jitter: false, script, busy_ms: 0, env_raw: Some(vals.clone()) });
+                        }
+                    }
+                }
+                Box::new(v.into_iter())
+            },
+            move |c: &Case| run_case(c, &known, true),
+        )
+        .shards(1)
+        .panic_prefix_("execute"),
+    );
     ck.finish();
 }
 
